@@ -303,6 +303,8 @@ class Program:
             ("tp>=", (fp, fq), lambda: fp >= fq),
             ("tp.hash", (p,), lambda: hash(p)),
             ("tp.str", (p,), lambda: str(p)),
+            ("tp.str-override", (p,), lambda: p.__str__(
+                override_custom_dump_format=True)),
             ("tp.repr", (p,), lambda: repr(p)),
             ("tp.strftime", (fp,), lambda: fp.strftime(
                 "%Y-%m-%dT%H:%M:%S%z %j %s %F %X")),
@@ -422,6 +424,23 @@ class Program:
         neg = repo.TimePoint(**dict(base, year=-3))
         self.add(repo.TimeRecurrence(repetitions=3, start_point=neg,
                                      duration=repo.Duration(years=1)))
+        # a negative year, no expanded digits, but a format of its own that
+        # can print it (str(p, override...) cannot)
+        self.add(repo.TimePoint(**dict(base, year=-44,
+                                       dump_format="YY-MM-DDThh:mm")))
+        # series bounded only by the min_point / max_point keywords
+        a = repo.TimePoint(**dict(base, year=2001))
+        day = repo.Duration(days=1)
+        self.add(repo.TimeRecurrence(start_point=a, duration=day,
+                                     max_point=a + repo.Duration(days=5,
+                                                                 hours=12)))
+        self.add(repo.TimeRecurrence(end_point=a, duration=day,
+                                     min_point=a - repo.Duration(days=3,
+                                                                 hours=6)))
+        self.add(repo.TimeRecurrence(
+            repetitions=9, start_point=a, duration=repo.Duration(hours=6),
+            min_point=a + repo.Duration(hours=7),
+            max_point=a + repo.Duration(hours=31)))
 
     def unary_sweep(self):
         """every looking-at operation on every seeded value, once, under
@@ -433,7 +452,9 @@ class Program:
                    ("hash", lambda o=o: hash(o)),
                    ("eq-self", lambda o=o: o == o)]
             if kind == "TimePoint":
-                ops += [("get_props", lambda o=o: o.get_props()),
+                ops += [("str-override", lambda o=o: o.__str__(
+                            override_custom_dump_format=True)),
+                        ("get_props", lambda o=o: o.get_props()),
                         ("to_utc", lambda o=o: o.to_utc()),
                         ("to_week", lambda o=o: o.to_week_date()),
                         ("to_ord", lambda o=o: o.to_ordinal_date()),
@@ -446,7 +467,20 @@ class Program:
                         ("secs", lambda o=o: o.get_seconds()),
                         ("neg", lambda o=o: -1 * o), ("abs", lambda o=o: abs(o))]
             elif kind == "TimeRecurrence":
-                ops += [("iter", lambda o=o: list(itertools_islice(iter(o),
+                def queries(o=o):
+                    pts = list(itertools_islice(iter(o), 40))
+                    out = []
+                    half = self.repo.Duration(hours=1, minutes=30)
+                    for p in pts[:2] + pts[-2:]:
+                        for q in (p, p + half, p - half):
+                            out.append(o.get_is_valid(q))
+                            out.append(o.get_next(q))
+                            out.append(o.get_prev(q))
+                            if o.start_point is not None:
+                                out.append(o.get_first_after(q))
+                    return out
+                ops += [("queries", queries),
+                        ("iter", lambda o=o: list(itertools_islice(iter(o),
                                                                    4))),
                         ("props", lambda o=o: (o.start_point, o.end_point,
                                                o.duration, o.repetitions))]
